@@ -451,6 +451,12 @@ Definition fx_progs : list (list op) :=
   [ [Push w_named w_good; Tag w_named (RName 1); Fetch w_unnamed];
     [Push w_named w_good; Push w_unnamed w_good; Tag w_unnamed (RName 1)] ].
 Definition fx_sched : list nat := [0; 1; 1; 0; 0; 1; 0; 1; 1; 0; 0; 1; 1; 1; 0; 1; 0; 1]%nat.
+Lemma fx_hyps : Forall untitled (concat fx_progs) /\ Forall no_alias (concat fx_progs).
+Proof.
+  split.
+  - repeat constructor.
+  - repeat constructor; try reflexivity; intros k n [].
+Qed.
 Lemma fx_quiescent : fquiescent (fconf_run true false false (fconf_init fx_progs) fx_sched) = true.
 Proof. vm_compute. reflexivity. Qed.
 
@@ -470,3 +476,28 @@ Proof.
   destruct (file_fetch d (seq_fstate true ig ov (map snd (fc_log cf)))) as [c|] eqn:Ef; [|discriminate].
   destruct (file_fetch_inv _ _ _ Hq Ef) as [Hh _]. cbn [snd]. intro X. injection X as <- _. exact Hh.
 Qed.
+
+(* known finding file-conc-titled-restore-not-serialisable: with titled successors
+   Push = store ; graph.Index ; restoreDuplicates is not one atomic step.  Goroutine 0 pushes a
+   manifest M under name 2 whose layer is titled with name 1; goroutine 1 pushes M again under
+   name 2 -- refused with duplicate-name, so M's store step came first -- and THEN pushes the
+   layer.  Under the schedule below M's restore step runs last and creates file 1 from the layer
+   that was pushed after M was stored.  Every sequential order of the three operations that
+   keeps goroutine 1's program order ends WITHOUT file 1 (whichever of the two manifest pushes
+   comes first is stored when the layer is still absent, the other one is refused and restores
+   nothing): the quiescent state is not the state of any sequential order. *)
+Definition ft_M := mkDesc 1 9 20 16.
+Definition ft_M' := mkDesc 1 9 20 18.
+Definition ft_Mb := mkBlobT 9 20 [(6, 1, 5)] 9 [(6, 1, 5)] [((6, 1, 5), 1)] [((6, 1, 5), 1)].
+Definition ft_progs : list (list op) := [[Push ft_M ft_Mb]; [Push ft_M' ft_Mb; Push w_unnamed w_good]].
+Definition ft_sched : list nat := [0; 1; 1; 1; 0]%nat.
+Definition ft_orders : list (list op) :=
+  [ [Push ft_M ft_Mb; Push ft_M' ft_Mb; Push w_unnamed w_good];
+    [Push ft_M' ft_Mb; Push ft_M ft_Mb; Push w_unnamed w_good];
+    [Push ft_M' ft_Mb; Push w_unnamed w_good; Push ft_M ft_Mb] ].
+Lemma file_titled_not_serialisable :
+  let cf := fconf_run true false false (fconf_init ft_progs) ft_sched in
+  fquiescent cf = true /\
+  f_names (fc_store cf) = [1; 2] /\
+  map (fun h => f_names (fst (runf (file_step true false false) file_init h))) ft_orders = [[2]; [2]; [2]].
+Proof. vm_compute. repeat split; reflexivity. Qed.
